@@ -4,6 +4,7 @@ import (
 	"bytes"
 	"fmt"
 	"runtime/debug"
+	"strings"
 
 	"github.com/jf-tech/go-corelib/caches"
 
@@ -97,6 +98,7 @@ const c13JSThrow = `{"parser_settings": {"version": "omni.2.1", "file_format_typ
    "c_ctx": {"custom_func": {"name": "javascript_with_context", "args": [{"const": "if (JSON.parse(_node).code == 'BAD-ctx') { throw 'ctx' }; typeof secret === 'undefined' ? 'clean' : 'LEAK:' + secret"}]}},
    "d_plain": {"custom_func": {"name": "javascript", "args": [{"const": "typeof _node === 'undefined' ? 'no _node' : 'LEAK: sees _node'"}]}},
    "e_secret": {"custom_func": {"name": "javascript", "args": [{"const": "if (secret == 's3') { throw 'secret' }; 'ok'"}, {"const": "secret"}, {"xpath": "s"}]}}}}}}`
+
 // the same with the throwing records last: whatever a failed call leaves behind is still there when the next transform starts
 const c13JSThrowLastInput = `<root><rec id="1"><code>k1</code><s>s1</s></rec><rec id="2"><s>s2</s></rec><rec id="3"><code>BAD-secret</code><s>s9</s></rec><rec id="4"><s>s3</s></rec></root>`
 const c13JSThrowInput = `<root><rec id="1"><code>k1</code><s>s1</s></rec><rec id="2"><code>BAD-secret</code><s>s2</s></rec><rec id="3"><s>s3</s></rec><rec id="4"><code>BAD-ctx</code><s>s4</s></rec><rec id="5"><s>s5</s></rec><rec id="6"><code>k6</code></rec></root>`
@@ -117,6 +119,37 @@ const c13TwoPrefixes = `{"parser_settings": {"version": "omni.2.1", "file_format
  "transform_declarations": {"FINAL_OUTPUT": {"xpath": "/root/*", "object": {"a_id": {"xpath": "a:id"}, "b_id": {"xpath": "b:id"}, "all": {"custom_func": {"name": "copy"}}}}}}`
 const c13TwoPrefixesInput = `<root xmlns:a="urn:same" xmlns:b="urn:same" xmlns="urn:same"><a:rec><a:id>1</a:id><b:v>x</b:v><w>d</w></a:rec><b:rec><b:id>2</b:id><a:v a:k="1">y</a:v></b:rec><rec><id>3</id><a:id>3a</a:id><b:id>3b</b:id></rec><a:rec><b:id>4</b:id></a:rec><b:rec><a:id>5</a:id></b:rec><a:rec><a:id>6</a:id><b:id>6</b:id></a:rec></root>`
 
+// the node handed to javascript_with_context is the record itself, the records differ in shape: the pool hands the
+// context node of an earlier record out again for a later one
+const c13JSShapes = `{"parser_settings": {"version": "omni.2.1", "file_format_type": "xml"},
+ "transform_declarations": {"FINAL_OUTPUT": {"xpath": "/root/rec", "object": {"id": {"xpath": "id"},
+   "ctx_id": {"custom_func": {"name": "javascript_with_context", "args": [{"const": "JSON.parse(_node).id"}]}},
+   "n": {"custom_func": {"name": "javascript_with_context", "args": [{"const": "Object.keys(JSON.parse(_node)).length"}]}}}}}}`
+
+func c13JSShapesInput() string {
+	var sb strings.Builder
+	sb.WriteString("<root>")
+	for i := 0; i < 80; i++ {
+		sb.WriteString(fmt.Sprintf("<rec><id>r%d</id>", i))
+		for k := 0; k < (i*7)%4; k++ {
+			sb.WriteString(fmt.Sprintf("<x%d>v</x%d>", k, k))
+		}
+		if i%5 == 0 {
+			sb.WriteString("<deep><d1><d2>z</d2></d1></deep>")
+		}
+		sb.WriteString("</rec>")
+	}
+	sb.WriteString("</root>")
+	return sb.String()
+}
+
+// the xpath of a field computed from an external property: two runs on the *same* Schema object with different values
+const c13ExtDyn = `{"parser_settings": {"version": "omni.2.1", "file_format_type": "json"},
+ "transform_declarations": {"FINAL_OUTPUT": {"xpath": "/*", "object": {
+   "picked": {"xpath_dynamic": {"external": "value_path"}}, "tag": {"external": "tag"},
+   "via_func": {"xpath_dynamic": {"custom_func": {"name": "concat", "args": [{"external": "value_path"}]}}}}}}}`
+const c13ExtDynInput = `[{"a": "A1", "b": "B1"}, {"a": "A2", "b": "B2"}]`
+
 func c13Corpus() ([]*corpusItem, error) {
 	items, err := multiRunCorpus(false)
 	if err != nil {
@@ -129,6 +162,7 @@ func c13Corpus() ([]*corpusItem, error) {
 		{Name: "c13/js-throw-then-probe", Format: "xml", Schema: []byte(c13JSThrow), Input: []byte(c13JSThrowInput)},
 		{Name: "c13/ignore-error-twin", Format: "xml", Schema: []byte(c13IETwin), Input: []byte(c13IETwinInput)},
 		{Name: "c13/xml-two-prefixes-one-uri", Format: "xml", Schema: []byte(c13TwoPrefixes), Input: []byte(c13TwoPrefixesInput)},
+		{Name: "c13/js-context-varying-shapes", Format: "xml", Schema: []byte(c13JSShapes), Input: []byte(c13JSShapesInput())},
 		{Name: "c13/js-throw-last", Format: "xml", Schema: []byte(c13JSThrow), Input: []byte(c13JSThrowLastInput)},
 		{Name: "c13/ancestor-anchored-with-failing-records", Format: "xml", Schema: []byte(c13Ancestor), Input: []byte(c13AncestorInput)},
 	}
@@ -138,6 +172,14 @@ func c13Corpus() ([]*corpusItem, error) {
 			return nil, fmt.Errorf("c13 schema %s rejected: %v %s", it.Name, err, p)
 		}
 		it.sch = sch
+	}
+	// three items on ONE Schema object, differing in their external properties only
+	extSch, err, p := newSchema([]byte(c13ExtDyn))
+	if err != nil || p != "" {
+		return nil, fmt.Errorf("c13 external-property schema rejected: %v %s", err, p)
+	}
+	for _, e := range []map[string]string{{"value_path": "a", "tag": "first"}, {"value_path": "b", "tag": "second"}, {"value_path": "nomatch", "tag": ""}} {
+		extra = append(extra, &corpusItem{Name: "c13/external-xpath-" + e["value_path"], Format: "json", Schema: []byte(c13ExtDyn), Input: []byte(c13ExtDynInput), Ext: e, sch: extSch})
 	}
 	return append(extra, items...), nil
 }
@@ -169,7 +211,7 @@ func c13Drive(args []string) int {
 		// two passes over the corpus in the same process state: the second one runs with warm caches
 		for pass := 0; pass < 2; pass++ {
 			for ii, it := range items {
-				o := transcriptOf(it.sch, bytes.NewReader(it.Input), 100000)
+				o := runItem(it, nil)
 				fp := fpAll(o, "full")
 				if pass == 1 {
 					// within one configuration the warm run must equal the cold run as well
@@ -212,7 +254,7 @@ func c13Drive(args []string) int {
 				for k := 0; k < 3; k++ { // enough released nodes for every node of the item
 					transcriptOf(pd.sch, bytes.NewReader(pd.Input), 100000)
 				}
-				o := transcriptOf(it.sch, bytes.NewReader(it.Input), 100000)
+				o := runItem(it, nil)
 				debug.SetGCPercent(old)
 				ev := "golden"
 				if pool {
